@@ -258,11 +258,15 @@ impl Check for C02 {
                 vec![Op::PushLayer(0.5, BlendMode::SrcOver), Op::PopLayer],
                 vec![Op::PushClipRect(5, 4, 1, 1), Op::Fill(tri.clone(), SrcSpec::Solid(0xff204080), Opts::default()), Op::Clear(0xffffffff), Op::PushClip(tri.clone()), Op::PopClip, Op::PopClip],
                 vec![Op::PushClip(PathSpec::rect(-9., -9., 3., 3.)), Op::PushLayer(1.0, BlendMode::SrcOver), Op::Clear(0x80002040), Op::PopLayer, Op::PopClip],
+                // a clip path pushed under an empty clip (nothing needs rasterising there), everything popped again
+                vec![Op::PushClipRect(5, 4, 1, 1), Op::PushClip(tri.clone()), Op::PopClip, Op::PopClip],
+                vec![Op::PushClipRect(0, 0, 2, h), Op::PushClipRect(3, 0, w, h), Op::PushClip(PathSpec::rect(1.0, 1.0, 3.0, 3.0)), Op::PopClip, Op::PopClip, Op::PopClip],
+                vec![Op::PushClipRect(5, 4, 1, 1), Op::PushLayer(1.0, BlendMode::SrcOver), Op::PushClip(tri.clone()), Op::PopClip, Op::PopLayer, Op::PopClip],
                 vec![Op::Stroke(tri.clone(), StyleSpec { width: 0.0, cap: 0, join: 0, miter: 4., dash: vec![], offset: 0. }, SrcSpec::Solid(0xffffffff), Opts::default()), Op::Fill(PathSpec::rect(-5., -5., 2., 2.), SrcSpec::Solid(0xffffffff), Opts::default())],
             ];
             let txs: Vec<Xf> = vec![[1., 0., 0., 1., 2., 1.], [0.5, 0., 0., 0.5, 1.5, 0.25], [0.8660254, 0.5, -0.5, 0.8660254, 2., -1.]];
             let srcs2 = [SrcSpec::Solid(0x80002040), SrcSpec::Linear { stops: ramp(), spread: Spr::Pad, p: [0., 0., 4., 3.] }];
-            run.bound("draws after no-op calls", format!("{} transforms x {} blocks of calls that must change nothing (layers under empty clips, empty layers, draws and clear under an empty clip, off-surface clip paths, zero-width strokes) x 13-14 shapes x 2 modes x 2 sources on {}x{}", txs.len(), noops.len(), w, h));
+            run.bound("draws after no-op calls", format!("{} transforms x {} blocks of calls that must change nothing (layers under empty clips, empty layers, draws and clear under an empty clip, off-surface clip paths, clip paths pushed under an empty clip, zero-width strokes) x 13-14 shapes x 2 modes x 2 sources on {}x{}", txs.len(), noops.len(), w, h));
             run.par(noops.len() * txs.len(), |i, l| {
                 let block = &noops[i / txs.len()];
                 let xf = txs[i % txs.len()];
